@@ -42,6 +42,9 @@ type Engine struct {
 	abandoned     int
 	knownWritten  map[string]bool
 	elemPointable map[string]bool // struct types with escaping element pointers (sv.go)
+	fieldPtrIDs    map[string]int   // registered escaping field addresses: type+path -> id
+	fieldPointable map[string][]int // pointee type -> ids of field addresses of that type
+	fieldPtrs      []fieldPtrEntry
 	nonNilGlobal  map[*ssa.Global]bool
 	srcCache      map[string][]string
 	usedLemmas    map[string]bool
